@@ -268,6 +268,8 @@ def _mk_cmd(attr, acc):
     export = _export(attr, acc)
     base_func = make(attr + '@base' if override else attr)
     over = make(attr) if override else None
+    if over:
+        over.__doc__ = None          # (a docstring of the overriding method would replace the description)
     if arg['t'] == 'none' and acc['ret'] == NULL and export is True and not override and not acc.get('props'):
         return Command(base_func), None                # the bare decorator: @Command
     pr = acc.get('props') or {}
@@ -424,9 +426,17 @@ def build_class(accs, base='Module', feats=()):
             kw['unit'] = acc['unit']          # '$' stands for the unit of the module's value
         pr = acc.get('props') or {}
         kw.update({k: pr[k] for k in ('group', 'visibility') if k in pr})
-        body['B'][attr] = M.Parameter(pr.get('description', 'p'), build_dt(cl['dt']), **kw)
+        dtobj = build_dt(cl['dt'])
+        if cl['dt']['t'] == 'bool':
+            dtobj = type(dtobj)               # "goodie": the datatype class instead of an instance
+        body['B'][attr] = M.Parameter(pr.get('description', 'p'), dtobj, **kw)
         if acc.get('cls') and acc.get('via') == 'subclass':
-            body['D'][attr] = M.Parameter(**_final_props(attr, acc))     # re-declared in the derived class
+            fp = _final_props(attr, acc)
+            if acc.get('redecl') == 'datatype' and ('min' in fp or 'max' in fp):
+                fp.pop('min', None)           # re-declared with a new datatype instead of min= / max=
+                fp.pop('max', None)
+                fp['datatype'] = build_dt(acc['dt'])
+            body['D'][attr] = M.Parameter(**fp)                          # re-declared in the derived class
         if acc['drv'] != 'absent':
             body['B']['write_' + attr] = _mk_write(attr, acc)
         if acc.get('rd', 'absent') != 'absent':
@@ -939,6 +949,7 @@ def rand_shape(rnd):
                     acc['cls'] = {'wire': rnd.choice([w for w in (auto, '', 'z_' + attr) if w != wire])}
                 elif what == 'hi':
                     acc['cls'] = {'hi': dt['hi'] + rnd.randint(1, 2)}
+                    acc['redecl'] = rnd.choice(['props', 'datatype'])
                 if acc.get('cls') and acc['via'] == 'subclass' and acc.get('initvia') == 'bare':
                     acc['initvia'] = 'value'      # one assignment per class body
         for attr in rnd.sample(['go', 'stop', 'ca', 'cb'], rnd.randint(1, 2)):
